@@ -493,10 +493,8 @@ func (ctx *RequestContext) GetResponse() (dst *protocol.Response) {
 //
 // In case the Key is reset after response, Value() return nil if ctx.Key is nil.
 func (ctx *RequestContext) Value(key interface{}) interface{} {
-	// this ctx has been reset, return nil.
-	if ctx.Keys == nil {
-		return nil
-	}
+	// (Keys is created lazily by Set under ctx.mu: it is only read under the lock, in Get; a context
+	// that has been reset has no keys, so Get finds nothing)
 	if keyString, ok := key.(string); ok {
 		val, _ := ctx.Get(keyString)
 		return val
